@@ -774,6 +774,18 @@ func c08Limited(c *Ctx) int {
 		}
 		time.Sleep(1050 * time.Millisecond) // the interval ends
 	}
+	// a client address the limiter cannot read: refused with 4xx and a message, not answered 200
+	for _, ra := range []string{"[fe80::1%eth0]:1234", "garbage", ""} {
+		req := httptest.NewRequest("GET", urls[0], nil)
+		req.RemoteAddr = ra
+		res := serveGuarded(s.Router, req)
+		n++
+		c.Count("req.limited-bad-address")
+		if res.spin || res.panic != "" || res.code < 400 || res.code >= 500 {
+			c.Violate("5xx", fmt.Sprintf("server with request limiter, unreadable client address %q: answered %d %s (a refusal must be a 4xx)", ra, res.code, res.panic),
+				[]string{fmt.Sprintf("# limited-server RemoteAddr=%q GET %s", ra, urls[0])}, nil)
+		}
+	}
 	return n
 }
 
